@@ -360,6 +360,10 @@ def gen_scenario(seed, force_cfg=None, profile=None, drive=None):
         scn["escapeAt"] = r2.choice([1, 1, 2, 3])
         scn["tolerant"] = True
         prof["pBadDst"] = max(prof.get("pBadDst", 0.12), 0.3)
+    if r2.random() < 0.3:
+        scn["keywordArgs"] = True
+    if r2.random() < 0.3:
+        scn["floatZeroDelay"] = True
     if r2.random() < 0.25:
         scn["dispatcher"] = {"when": r2.choice(["initialize", "initialize", "timer", "telemetry"]),
                              "oneShot": r2.random() < 0.5}
